@@ -1,4 +1,5 @@
 import os
+from fractions import Fraction
 from abc import ABCMeta
 
 from rtamt.semantics.abstract_discrete_time_online_interpreter import AbstractDiscreteTimeOnlineInterpreter
@@ -301,6 +302,12 @@ class AbstractOnlineSpecification(AbstractSpecification):
 
     # forwarding pastify
     def pastify(self):
+        if isinstance(self.online_interpreter, DiscreteTimeInterpreter) and hasattr(self.ast, 'U'):
+            # one sample (the look-ahead of next) lasts one sampling period; express it in the default unit
+            period = Fraction(self.online_interpreter.get_sampling_period(), self.ast.U[self.ast.unit])
+            if period != 1:
+                self.ast = self.pastifier.pastify(self.ast, period)
+                return
         self.ast = self.pastifier.pastify(self.ast)
 
     # forwarding to interpreter
